@@ -12,7 +12,7 @@ harness/bridge.py, which records the constructor / helper / std class used):
          LoadConst built, and the link const-out-0 -> load-in-0.  Lean stream `const.load`.
   dec    a serialised value with 1-2 structural mutations (missing required member, unknown tag,
          wrong JSON kind): accept / reject and the decoded value.  Lean stream `val.dec`.
-  inh    the reference checker and the Lean `inhabits` on a value against ANOTHER type.  Stream
+  inh    the reference checker and the Lean `inhabits` on the serialised forms of a value and of ANOTHER type.  Stream
          `val.inhabits` (cross-validates the two transcriptions of the Rust rules; oracle-free).
 
 The oracle is written from the property text and the Rust rules (`SumType::check_type`,
@@ -583,7 +583,22 @@ def cases(rng, tier):
         yield {"k": "inh", "e": e, "t": t}
 
 
+def _respell(t):
+    """The other spelling of an extension type: an opaque type without arguments as an instance of a
+    definition with that name / extension / explicit bound, a std type in its opaque form (same
+    serialised type, different hugr-py class)."""
+    if isinstance(t, list) and t[0] == "@opaque" and not t[3]:
+        return ["@ext", ["@def", t[4], t[1], "", [], ["@explicit", t[2]]], []]
+    if isinstance(t, list) and t[0] == "@ext" and t[1][5][0] == "@explicit" and all(a[0] != "@ty" for a in t[2]):
+        return ["@opaque", t[1][2], t[1][5][1], t[2], t[1][1]]
+    if isinstance(t, list) and t[0] == "@sum":
+        return ["@sum", [[_respell(x) for x in r] for r in t[1]]]
+    return t
+
+
 def _perturb_type(rng, t):
+    if rng.random() < 0.25:
+        return _respell(t)
     if isinstance(t, list) and t[0] == "@unit":
         return rng.choice([["@sum", [[] for _ in range(t[1])]], ["@unit", t[1] + 1], t])
     if isinstance(t, list) and t[0] == "@sum":
